@@ -114,7 +114,7 @@ def run_unit(k, repo, root, build_root, tier):
     res = {"unit": name, "backend": "kani", "status": "undecided", "functions": [], "failures": [],
            "undecided": [], "obligations": 0, "discharged": 0, "trusted": [], "extraction": [],
            "smt_time_ms": 0, "wall_s": 0.0, "checker_cmd": "", "twin": None,
-           "bounded": k.get("bounded")}
+           "bounded": k.get("bounded"), "source_hint": k.get("source_hint")}
     t0 = time.time()
     harnesses = list(k["quick"]) if tier == "quick" else list(k.get("thorough") or k["quick"])
     prefix = k.get("module", "")
